@@ -8760,7 +8760,7 @@ func E11StickyFlag(c *core.Ctx, r *core.Report) {
 
 // E11SVGMiterLimitCarried: every limited joiner the importer installs carries the miter limit in effect.
 func E11SVGMiterLimitCarried(c *core.Ctx, r *core.Report) {
-	r.Rule("E11.svg-miterlimit-carried", "stroke-miterlimit is an inherited SVG property of its own: the importer keeps it in the parser state (written by the `stroke-miterlimit` case, saved and restored with the state), independent of the order in which it and stroke-linejoin arrive, and the library's own SVG writer emits it for miter *and* arcs joins. (1) Wherever svg.go hands a joiner with a limit to SetStrokeJoiner — a MiterJoiner or ArcsJoiner literal, or one of the package's predefined joiners whose initialiser is such a literal (MiterJoin, MiterClipJoin, ArcsJoin, ArcsClipJoin, which carry the fixed limit 4) — its Limit is read from a strokeMiterLimit state field. (2) The `stroke-miterlimit` case patches the limit of the joiner already installed for both kinds (a type assertion to MiterJoiner and one to ArcsJoiner). With the predefined joiner, `<g stroke-miterlimit=\"10\"><path stroke-linejoin=\"miter\" …/></g>` bevels corners the document asks to be mitered, and `stroke-linejoin:arcs;stroke-miterlimit:10` — what the writer emits for ArcsJoiner{BevelJoin, 10} — is read back with limit 4")
+	r.Rule("E11.svg-miterlimit-carried", "stroke-miterlimit is an inherited SVG property of its own: the importer keeps it in the parser state (written by the `stroke-miterlimit` case, saved and restored with the state), independent of the order in which it and stroke-linejoin arrive, and the library's own SVG writer emits it for miter *and* arcs joins. (1) Wherever svg.go hands a joiner with a limit to SetStrokeJoiner — a MiterJoiner or ArcsJoiner literal, or one of the package's predefined joiners whose initialiser is such a literal (MiterJoin, MiterClipJoin, ArcsJoin, ArcsClipJoin, which carry the fixed limit 4) — its Limit is read from a strokeMiterLimit state field. (2) The `stroke-miterlimit` case patches the limit of the joiner already installed for both kinds (a type assertion to MiterJoiner and one to ArcsJoiner, or the cases of a type switch). (3) That case stores the limit in the state at its top level with no return in front of it, so it is remembered whatever joiner is current. With the predefined joiner, `<g stroke-miterlimit=\"10\"><path stroke-linejoin=\"miter\" …/></g>` bevels corners the document asks to be mitered, and `stroke-linejoin:arcs;stroke-miterlimit:10` — what the writer emits for ArcsJoiner{BevelJoin, 10} — is read back with limit 4")
 	p := c.MustPkg("")
 	info := p.TypesInfo
 	limited := func(t types.Type) string {
@@ -8904,6 +8904,39 @@ func E11SVGMiterLimitCarried(c *core.Ctx, r *core.Report) {
 			}
 		}
 		r.Fail("E11.svg-miterlimit-carried", key, c.Pos(clause.Pos()), "a stroke-miterlimit that arrives after stroke-linejoin does not reach an installed "+strings.Join(missing, "/")+": the SVG writer emits the join before the limit, so its own output is read back with the limit 4")
+	}
+	// (3) the state field is written on every path through the case: at the top level of the case body, with no
+	// return in any statement in front of it
+	key3 := "canvas.svgParser.setAttribute|stroke-miterlimit is remembered whatever joiner is installed"
+	written, early := false, ""
+	for _, st := range clause.Body {
+		if as, ok := st.(*ast.AssignStmt); ok && !written {
+			for _, l := range as.Lhs {
+				if se, ok := l.(*ast.SelectorExpr); ok && se.Sel.Name == "strokeMiterLimit" {
+					written = true
+				}
+			}
+		}
+		if written {
+			break
+		}
+		ast.Inspect(st, func(q ast.Node) bool {
+			if _, isFn := q.(*ast.FuncLit); isFn {
+				return false
+			}
+			if rs, ok := q.(*ast.ReturnStmt); ok && early == "" {
+				early = c.Pos(rs.Pos())
+			}
+			return true
+		})
+	}
+	switch {
+	case !written:
+		r.Fail("E11.svg-miterlimit-carried", key3, c.Pos(clause.Pos()), "the case does not store the limit in the parser state's strokeMiterLimit at its top level: a limit stated while a bevel or round join is current is forgotten, and a later stroke-linejoin:miter uses a stale one")
+	case early != "":
+		r.Fail("E11.svg-miterlimit-carried", key3, early, "the case returns here before the limit is stored in the parser state: a limit stated while a join without a limit (bevel, round) is current is forgotten, and a later stroke-linejoin:miter uses the default 4 or a stale value")
+	default:
+		r.OK("E11.svg-miterlimit-carried", key3, c.Pos(clause.Pos()), "")
 	}
 }
 
@@ -16663,7 +16696,7 @@ func E11ImplicitLineToRelativity(c *core.Ctx, r *core.Report) {
 
 // E11ArcShortcutOrientation: a shortcut in Transform's arc case that carries the rotation over by addition excludes reflections.
 func E11ArcShortcutOrientation(c *core.Ctx, r *core.Report) {
-	r.Rule("E11.arc-shortcut-orientation", "Path.Transform maps an elliptical arc through the conic of its ellipse; a branch of the arc case that leaves early (`continue`) replaces that computation by a closed form. A closed form that carries the stored rotation over by addition (`phi = phi + rot`) is right for rotations and uniform scalings only: under a reflection the axis direction θ becomes α − θ, not θ + α. Such a branch must therefore be guarded by a test of the orientation of the matrix — a conjunct that reads the determinant or both scale factors of the decomposition. IsSimilarity alone also holds for `Scale(1,-1)`: the reflected arc keeps its end points and radii and lies on a wrongly tilted ellipse")
+	r.Rule("E11.arc-shortcut-orientation", "Path.Transform maps an elliptical arc through the conic of its ellipse; a branch of the arc case may replace that computation by a closed form. A closed form that carries the stored rotation over by addition (`phi = phi + rot`) is right for rotations and uniform scalings only: under a reflection the axis direction θ becomes α − θ, not θ + α. Every assignment in the arc case that adds to the rotation variable must therefore lie under a test of the orientation of the matrix — a conjunct, in one of the enclosing conditions, that reads the determinant or both scale factors of the decomposition. IsSimilarity alone also holds for `Scale(1,-1)`: the reflected arc keeps its end points and radii and lies on a wrongly tilted ellipse")
 	p := c.MustPkg("")
 	info := p.TypesInfo
 	fd := core.MustFuncDecl(p, "Path.Transform")
@@ -16720,33 +16753,21 @@ func E11ArcShortcutOrientation(c *core.Ctx, r *core.Report) {
 			continue
 		}
 		for _, st := range cc.Body {
-			is, ok := st.(*ast.IfStmt)
-			if !ok {
-				continue
-			}
-			leaves := false
-			ast.Inspect(is.Body, func(q ast.Node) bool {
-				if bs, ok := q.(*ast.BranchStmt); ok && bs.Tok == token.CONTINUE {
-					leaves = true
-				}
-				return true
-			})
-			if !leaves {
-				continue
-			}
-			additive := false
-			ast.Inspect(is.Body, func(q ast.Node) bool {
+			walkStack(st, func(q ast.Node, stack []ast.Node) {
 				as, ok := q.(*ast.AssignStmt)
 				if !ok {
-					return true
+					return
 				}
+				additive := false
 				for i, l := range as.Lhs {
 					if id, ok := l.(*ast.Ident); ok && core.ObjOf(info, id) == phi && i < len(as.Rhs) {
-						if as.Tok == token.ADD_ASSIGN || as.Tok == token.SUB_ASSIGN {
+						isConst := func(e ast.Expr) bool { tv, ok := info.Types[e]; return ok && tv.Value != nil }
+						// a constant step (the half turn that normalises the angle) is not a rotation by the matrix
+						if (as.Tok == token.ADD_ASSIGN || as.Tok == token.SUB_ASSIGN) && !isConst(as.Rhs[i]) {
 							additive = true
 						}
 						ast.Inspect(as.Rhs[i], func(k ast.Node) bool {
-							if be, ok := k.(*ast.BinaryExpr); ok && (be.Op == token.ADD || be.Op == token.SUB) {
+							if be, ok := k.(*ast.BinaryExpr); ok && (be.Op == token.ADD || be.Op == token.SUB) && !isConst(be.X) && !isConst(be.Y) {
 								ast.Inspect(be, func(z ast.Node) bool {
 									if zid, ok := z.(*ast.Ident); ok && core.ObjOf(info, zid) == phi {
 										additive = true
@@ -16758,38 +16779,46 @@ func E11ArcShortcutOrientation(c *core.Ctx, r *core.Report) {
 						})
 					}
 				}
-				return true
-			})
-			if !additive {
-				continue
-			}
-			n++
-			key := fmt.Sprintf("canvas.Path.Transform|arc shortcut #%d that adds to the rotation excludes reflections", n)
-			oriented := false
-			for _, t := range andTerms(is.Cond) {
-				det, sc := false, 0
-				ast.Inspect(t, func(q ast.Node) bool {
-					switch x := q.(type) {
-					case *ast.CallExpr:
-						if f := core.CalleeOf(info, x); f != nil && f.Name() == "Det" {
-							det = true
-						}
-					case *ast.Ident:
-						if scales[core.ObjOf(info, x)] {
-							sc++
+				if !additive {
+					return
+				}
+				n++
+				key := fmt.Sprintf("canvas.Path.Transform|arc rotation carried over by addition #%d excludes reflections", n)
+				oriented := false
+				var conds []string
+				all := append([]ast.Node{st}, stack...)
+				for _, a := range all {
+					is, ok := a.(*ast.IfStmt)
+					if !ok {
+						continue
+					}
+					conds = append(conds, c.Src(is.Cond))
+					for _, t := range andTerms(is.Cond) {
+						det, sc := false, 0
+						ast.Inspect(t, func(z ast.Node) bool {
+							switch x := z.(type) {
+							case *ast.CallExpr:
+								if f := core.CalleeOf(info, x); f != nil && f.Name() == "Det" {
+									det = true
+								}
+							case *ast.Ident:
+								if scales[core.ObjOf(info, x)] {
+									sc++
+								}
+							}
+							return true
+						})
+						if det || sc >= 2 {
+							oriented = true
 						}
 					}
-					return true
-				})
-				if det || sc >= 2 {
-					oriented = true
 				}
-			}
-			if oriented {
-				r.OK("E11.arc-shortcut-orientation", key, c.Pos(is.Pos()), c.Src(is.Cond))
-			} else {
-				r.Fail("E11.arc-shortcut-orientation", key, c.Pos(is.Pos()), fmt.Sprintf("the branch under `%s` leaves the arc case with the rotation carried over by addition and no conjunct reads the orientation of the matrix: under a reflection the axis turns the other way (α − φ), so the arc lies on a wrongly tilted ellipse", c.Src(is.Cond)))
-			}
+				if oriented {
+					r.OK("E11.arc-shortcut-orientation", key, c.Pos(as.Pos()), strings.Join(conds, " / "))
+				} else {
+					r.Fail("E11.arc-shortcut-orientation", key, c.Pos(as.Pos()), fmt.Sprintf("`%s` carries the stored rotation over by addition under `%s`, and no condition on the way reads the orientation of the matrix: under a reflection the axis turns the other way (α − φ), so the arc lies on a wrongly tilted ellipse", c.Src(as), strings.Join(conds, " / ")))
+				}
+			})
 		}
 	}
 	// no shortcut today: the rule is exercised by its mutant
